@@ -1356,6 +1356,12 @@ func (fr *Frame) chanSend(in ssa.Instruction, ch, x ssa.Value, pc string) {
 	if fr.depth != 0 || e.spec == nil || (len(e.spec.OnSend) == 0 && len(e.spec.OnSendAdd) == 0) {
 		return
 	}
+	defer func() {
+		// after the clauses of this send: the allocation bound becomes the "previous send" mark
+		e.keySort["X:lastsendalloc"] = sRef
+		cur := e.heapGet(fr.st, "X:lastsendalloc", sRef)
+		e.heapSet(fr.st, "X:lastsendalloc", sRef, mkIte(pc, fr.st.alloc, cur))
+	}()
 	val := fr.val(x)
 	val.T = x.Type()
 	if mi, ok := x.(*ssa.MakeInterface); ok {
